@@ -29,7 +29,7 @@ WellFormed(p) == \A i \in 1..Len(p) : p[i].kind = "ref" =>
                     /\ p[i].tgt \in 1..Len(p) /\ p[i].tgt # i /\ p[p[i].tgt].kind \in {"def", "def0"}
                     /\ Family(p[p[i].tgt].el) = Family(p[i].el)
 Defs(p) == {k \in 1..Len(p) : p[k].kind \in {"def", "def0"}}
-Faults(p) == {<<"none", 0, 0>>} \cup {<<"dangling", k, 0>> : k \in {i \in 1..Len(p) : p[i].kind = "ref"}}
+Faults(p) == {<<"none", 0, 0>>} \cup {<<f, k, 0>> : k \in {i \in 1..Len(p) : p[i].kind = "ref"}, f \in {"dangling", "dangling-no-text", "dangling-empty-text"}}
              \cup {<<"duplicate-id", q[1], q[2]>> : q \in {r \in Defs(p) \X Defs(p) : r[1] < r[2]}}
              \cup {<<"duplicate-id-nested", i, 0>> : i \in Defs(p)}        \* the id again on a descendant of its holder
 
